@@ -839,6 +839,10 @@ impl SrtlaConnection {
         self.packet_log.clear();
         self.in_flight_packets = 0;
         self.highest_acked_seq = i32::MIN;
+        // Early NAKs charged against pre-registration packets also shrank the
+        // window; the link must join the group with the default window, like
+        // every other path that (re)starts a link.
+        self.window = WINDOW_DEF * WINDOW_MULT;
         self.congestion.reset();
         self.batch_sender.reset();
         self.quality_cache = CachedQuality::default();
